@@ -53,12 +53,12 @@ CLAIMS = {
     'C12': dict(category='other', design_ref='DESIGN.md section 3 C12, 2.13',
         text='Proved: Filter._check_property == documented semantics of all 8 operators; apply_common_filters yields exactly the objects matching every filter; _update_allow and '
              'AuthSet; SOUNDNESS of _find_search_optimizations for an arbitrary ghost object (loop invariant, image sets); re-iterable query at every call site; monotonicity and '
-             'conjunction=intersection lemmas. Bounded: filter sets x stores x 4 delivery routes against an independent reference. _check_filter recursion and directory matching are bounded only. Also proved (section 18.7): FilterSet.add and the filter forwarding of CompositeDataSource.all_versions / query / get (call-site obligations: every member receives every attached and handed-down filter and nothing else).',
+             'conjunction=intersection lemmas. Bounded: filter sets x stores x 4 delivery routes against an independent reference. _check_filter recursion and directory matching are bounded only. Also proved (section 18.7): FilterSet.add and the filter forwarding of CompositeDataSource.all_versions / query / get (call-site obligations: every member receives every attached and handed-down filter and nothing else). MemorySource.query / all_versions and the filter bookkeeping of FileSystemSource.query are under contract: the filters applied are exactly query + own + handed-down, and the caller\'s query object is never written to (frame obligation).',
         note='Filter values on type/id are strings or iterables of strings; get() under attached filters is read permissively (newest-if-matching or newest-matching).',
         technique='contract-based deductive verification (PyVC + z3: arrays as sets, quantified prefix invariants, ghost object); bounded end-to-end stand-in'),
     'C11': dict(category='other', design_ref='DESIGN.md section 3 C11',
         text='Proved: _ObjectFamily.add preserves "latest_version carries the greatest modified time; all_versions gains exactly the added version" over the whole key set; memory._add '
-             'routing. Bounded: add histories (length <= 3/4) x 6 input forms on MemoryStore and FileSystemStore vs a list model, save/load round trip, file-name injectivity. Also (section 18): _timestamp2filename call-site obligations and unique-decomposition lemmas: distinct serialized instants get distinct file names.',
+             'routing. Bounded: add histories (length <= 3/4) x 6 input forms on MemoryStore and FileSystemStore vs a list model, save/load round trip, file-name injectivity. Also (section 18): _timestamp2filename call-site obligations and unique-decomposition lemmas: distinct serialized instants get distinct file names. MemorySource.all_versions / query are under contract (every version held under the id / every stored object, through exactly the filters in force), with the representation invariant of the store as precondition.',
         note='OS semantics assumed; no concurrency. Known finding (dictionary-kept custom objects compare timestamps as text) is listed in known_findings.json.',
         technique='contract-based deductive verification of the representation invariant (PyVC + z3); bounded history enumeration against a list model'),
     'C18': dict(category='other', design_ref='DESIGN.md section 3 C18',
@@ -98,7 +98,7 @@ CLAIMS = {
         technique='contract proofs of the selection logic (PyVC + z3); bounded comparison with an independent canonicalizer + UUIDv5'),
     'C07': dict(category='exploration', design_ref='DESIGN.md section 3 C07',
         text='Bounded stand-in carries the granular laws: states reachable by <= 2 adds on 3 base objects x 10 selectors (incl. string-prefix siblings) x 3 markings x flag combinations against a set model; '
-             'object-level operations are proved as set algebra (add = union, remove = difference with MarkingNotFoundError iff absent, is_marked, clear). The selector functions (_evaluate_expression, _validate_selector, validate) are under contract here as well, with a native family over every path and near miss of three objects. The contracts of new_version / _fudge_modified (C05) are obligations of this property as well (section 18.2). Proved since section 18.9: expand_markings and compress_markings keep exactly the (kind, marking, selector) triples; granular add_markings gives view(object) united with the added pairs (modular, against those contracts, validate and new_version); idempotence / order-independence / reported-after-adding are lemmas over that contract. Remove / clear / set and the queries stay bounded.',
+             'object-level operations are proved as set algebra (add = union, remove = difference with MarkingNotFoundError iff absent, is_marked, clear). The selector functions (_evaluate_expression, _validate_selector, validate) are under contract here as well, with a native family over every path and near miss of three objects. The contracts of new_version / _fudge_modified (C05) are obligations of this property as well (section 18.2). Proved since section 18.9: expand_markings and compress_markings keep exactly the (kind, marking, selector) triples; granular add_markings gives view(object) united with the added pairs (modular, against those contracts, validate and new_version); idempotence / order-independence / reported-after-adding are lemmas over that contract. Remove / clear / set and the queries stay bounded. Also proved: granular remove_markings (exactly the named pairs go; MarkingNotFoundError iff none is there), the restore law as a lemma, and set_markings == clear then add (call-site obligations; clear_markings itself is not under contract).',
         note='Granular functions (nested loops over nested data) are outside the verified subset.',
         technique='bounded enumeration against a set model; set-algebra contracts for object-level markings (PyVC + z3 arrays)'),
     'C08': dict(category='other', design_ref='DESIGN.md section 3 C08',
@@ -119,7 +119,7 @@ CLAIMS = {
         technique='bounded grammar-driven round-trip enumeration with an independent reader'),
     'C13': dict(category='exploration', design_ref='DESIGN.md section 3 C13',
         text='Bounded stand-in: deep snapshots of arguments and of existing objects around 26 public operations singly and in pairs on nested shapes; assignment/deletion refused; deepcopy equal and disjoint (id walk). '
-             'Proved core: __setattr__ refuses every public name; __deepcopy__ builds from copy.deepcopy(self._inner) and stores only into that private copy. parse_into_datetime is proved here with a frame obligation: no attribute store or in-place mutation through any alias of a record argument. Section 18: two more frame families (filters handed to sources / stores / composites / environments; operands of pattern expressions), the latter after fix f6f0d30.',
+             'Proved core: __setattr__ refuses every public name; __deepcopy__ builds from copy.deepcopy(self._inner) and stores only into that private copy. parse_into_datetime is proved here with a frame obligation: no attribute store or in-place mutation through any alias of a record argument. Section 18: two more frame families (filters handed to sources / stores / composites / environments; operands of pattern expressions), the latter after fix f6f0d30. The frame obligation on the query argument of MemorySource.query / FileSystemSource.query is a discharged clause (in-place add on the argument fails it).',
         note='General absence of aliasing writes needs an ownership discipline Python lacks: bounded only.',
         technique='bounded frame checking with deep snapshots; contract proofs of __setattr__/__deepcopy__ (PyVC + z3)'),
     'C16': dict(category='other', design_ref='DESIGN.md section 3 C16, section 18',
